@@ -7,7 +7,7 @@
    where every Ignored mark comes from, that everything an object of the new
    surface reaches is Ignored unless a changed object overwrote it, and that
    what a changed old object reached is Damaged unless something new covers it. *)
-From Coq Require Import List NArith Bool Arith Lia FinFun.
+From Coq Require Import List NArith Bool Arith Lia FinFun Sorted.
 From SNT Require Import Render.Cell Render.Screen Render.Frame Render.Domain Render.GridLemmas
   Render.ExecProofs Render.Den Render.FrameSpec.
 Import ListNotations.
@@ -53,6 +53,63 @@ Proof.
   intros. rewrite <- pos_mem_in. destruct (pos_mem l r c); split; intro H; congruence.
 Qed.
 
+(* ---------- scan order ---------- *)
+Definition before (p q : nat * nat) : Prop := fst p < fst q \/ (fst p = fst q /\ snd p < snd q).
+
+Lemma ss_app : forall {A} (R : A -> A -> Prop) l1 l2,
+  StronglySorted R l1 -> StronglySorted R l2 -> (forall x y, In x l1 -> In y l2 -> R x y) ->
+  StronglySorted R (l1 ++ l2).
+Proof.
+  intros A R. induction l1 as [|a l1 IH]; intros l2 H1 H2 H; simpl; auto.
+  inversion H1; subst. constructor.
+  - apply IH; auto. intros x y Hx Hy. apply H; simpl; auto.
+  - apply Forall_app. split; auto. apply Forall_forall. intros y Hy. apply H; simpl; auto.
+Qed.
+
+Lemma ss_row : forall r n s, StronglySorted before (map (fun c => (r, c)) (seq s n)).
+Proof.
+  intros r. induction n as [|n IH]; intros s; simpl; constructor; auto.
+  apply Forall_forall. intros [r' c'] Hin. apply in_map_iff in Hin. destruct Hin as (c & Heq & Hc).
+  inversion Heq; subst. apply in_seq in Hc. right. simpl. lia.
+Qed.
+
+Lemma ss_rows : forall w n a,
+  StronglySorted before (flat_map (fun r => map (fun c => (r, c)) (seq 0 w)) (seq a n)).
+Proof.
+  intros w. induction n as [|n IH]; intros a; simpl. constructor.
+  apply ss_app. apply ss_row. apply IH.
+  intros [r c] [r' c'] Hx Hy. apply in_map_iff in Hx. destruct Hx as (c1 & Heq & _). inversion Heq; subst.
+  apply in_flat_map in Hy. destruct Hy as (r2 & Hr2 & Hy). apply in_seq in Hr2.
+  apply in_map_iff in Hy. destruct Hy as (c2 & Heq2 & _). inversion Heq2; subst. left. simpl. lia.
+Qed.
+
+Lemma ss_split : forall {A} (R : A -> A -> Prop) l1 q l2,
+  StronglySorted R (l1 ++ q :: l2) -> (forall x, In x l1 -> R x q) /\ (forall y, In y l2 -> R q y).
+Proof.
+  intros A R. induction l1 as [|a l1 IH]; intros q l2 H; simpl in *.
+  - inversion H; subst. split; [intros x []|]. intros y Hy. rewrite Forall_forall in H3. auto.
+  - inversion H; subst. destruct (IH q l2 H2) as [H4 H5]. split; auto.
+    intros x [<-|Hx]; auto. rewrite Forall_forall in H3. apply H3. apply in_or_app. right. left. reflexivity.
+Qed.
+
+(* the processed positions are exactly the positions before the one being processed *)
+Lemma all_pos_frontier : forall h w l1 q l2,
+  all_pos h w = l1 ++ q :: l2 ->
+  forall r c, In (r, c) l1 <-> (r < h /\ c < w /\ before (r, c) q).
+Proof.
+  intros h w l1 q l2 Heq r c.
+  pose proof (ss_rows w h 0) as Hss. fold (all_pos h w) in Hss. rewrite Heq in Hss.
+  destruct (ss_split before l1 q l2 Hss) as [Hb Ha].
+  split.
+  - intros Hin. assert (Hall : In (r, c) (all_pos h w)) by (rewrite Heq; apply in_or_app; auto).
+    apply in_all_pos in Hall. destruct Hall. auto.
+  - intros (Hr & Hc & Hbef).
+    assert (Hall : In (r, c) (all_pos h w)) by (apply in_all_pos; auto).
+    rewrite Heq in Hall. apply in_app_or in Hall. destruct Hall as [H|[H|H]]; auto.
+    + subst q. unfold before in Hbef. simpl in Hbef. lia.
+    + apply Ha in H. unfold before in *. simpl in *. lia.
+Qed.
+
 Lemma resolve_idem : forall o x, resolve o (resolve o x) = resolve o x.
 Proof. intros o [f [ch|i|g]]; reflexivity. Qed.
 
@@ -76,16 +133,26 @@ Section Pass1.
     i_same : forall r c, In (r, c) done -> ~ In (r, c) decs -> gget old r c = gget nw r c;
     i_dec : forall r c, In (r, c) decs ->
             gget old r c <> gget nw r c \/ gget (p1_marks st) r c = Some MDamaged
-            \/ exists r1 c1 y, gget nw r1 c1 = Some y /\ ext_covers o y r1 c1 r c = true;
+            \/ exists r1 c1 y, gget nw r1 c1 = Some y /\ shown o nw y r1 c1 = true
+                               /\ ext_covers o y r1 c1 r c = true;
     i_ign : forall r c, gget (p1_marks st) r c = Some MIgnored ->
-            exists r1 c1 y, gget nw r1 c1 = Some y /\ ext_covers o y r1 c1 r c = true;
-    i_new : forall r1 c1 y r c, In (r1, c1) done -> gget nw r1 c1 = Some y ->
+            exists r1 c1 y, In (r1, c1) done /\ gget nw r1 c1 = Some y /\ shown o nw y r1 c1 = true
+                            /\ ext_covers o y r1 c1 r c = true;
+    i_new : forall r1 c1 y r c, In (r1, c1) done -> gget nw r1 c1 = Some y -> shown o nw y r1 c1 = true ->
             ext_covers o y r1 c1 r c = true -> r < h -> c < w ->
             gget (p1_marks st) r c = Some MIgnored
             \/ (gget (p1_marks st) r c = Some MDamaged /\ In (r1, c1) decs);
+    i_hid : forall r1 c1 y, In (r1, c1) done -> gget nw r1 c1 = Some y -> is_wide o y = true ->
+            hidden o nw r1 c1 = true -> S c1 < w -> gget (p1_marks st) r1 (S c1) = Some MDamaged;
+    (* the cell right behind a shown wide character that has just been processed is Ignored when
+       pass 1 reaches it *)
+    i_next : forall r c' y, In (r, c') done -> ~ In (r, S c') done -> gget nw r c' = Some y ->
+             is_wide o y = true -> hidden o nw r c' = false -> S c' < w ->
+             gget (p1_marks st) r (S c') = Some MIgnored;
     i_old : forall r1 c1 y r c, In (r1, c1) decs -> gget old r1 c1 = Some y ->
             ext_covers o y r1 c1 r c = true -> r < h -> c < w ->
-            (forall r2 c2 z, gget nw r2 c2 = Some z -> ext_covers o z r2 c2 r c = false) ->
+            (forall r2 c2 z, gget nw r2 c2 = Some z -> shown o nw z r2 c2 = true ->
+                             ext_covers o z r2 c2 r c = false) ->
             gget (p1_marks st) r c = Some MDamaged;
     i_forced : u = MDamaged -> forall r c, r < h -> c < w ->
                gget (p1_marks st) r c = Some MDamaged \/ gget (p1_marks st) r c = Some MIgnored;
@@ -109,30 +176,117 @@ Section Pass1.
     - split. constructor. intros. tauto.
   Qed.
 
-  (* the marks after one step, uniformly in the branch taken *)
-  Definition step_mark (chg : bool) (oldc new : cell) (r0 c0 r c : nat) (v : mark) : mark :=
-    if ext_covers o new r0 c0 r c then MIgnored
+  (* two things of one good surface whose extents reach the same cell are the same thing *)
+  Lemma ext_unique : forall s, Good o h w s -> forall r1 c1 y1 r2 c2 y2 r c,
+    gget s r1 c1 = Some y1 -> gget s r2 c2 = Some y2 -> r < h -> c < w ->
+    ext_covers o y1 r1 c1 r c = true -> ext_covers o y2 r2 c2 r c = true -> r1 = r2 /\ c1 = c2.
+  Proof.
+    intros s G r1 c1 y1 r2 c2 y2 r c H1 H2 Hr Hc E1 E2.
+    pose proof (good_cells _ _ _ _ G r1 c1 y1 H1) as G1. pose proof (good_cells _ _ _ _ G r2 c2 y2 H2) as G2.
+    destruct (ckind y1) as [ch1|i1|g1] eqn:K1; destruct (ckind y2) as [ch2|i2|g2] eqn:K2;
+      try (unfold cell_good in *; rewrite ?K1, ?K2 in *; contradiction).
+    - apply (ext_covers_char o y1 ch1) in E1; auto. apply (ext_covers_char o y2 ch2) in E2; auto.
+      unfold cell_good in *. rewrite K1 in G1. rewrite K2 in G2. lia.
+    - apply (good_disjoint _ _ _ _ G r c r1 c1 r2 c2 y1 y2); auto.
+      + eapply ext_covers_occupies; eauto.
+      + eapply ext_covers_occupies; eauto.
+      + right. exists i2. auto.
+    - apply (good_disjoint _ _ _ _ G r c r1 c1 r2 c2 y1 y2); auto.
+      + eapply ext_covers_occupies; eauto.
+      + eapply ext_covers_occupies; eauto.
+      + left. exists i1. auto.
+    - apply (good_disjoint _ _ _ _ G r c r1 c1 r2 c2 y1 y2); auto.
+      + eapply ext_covers_occupies; eauto.
+      + eapply ext_covers_occupies; eauto.
+      + left. exists i1. auto.
+  Qed.
+
+  (* the cells a wide character of nw would occupy are not reached by the extent of anything else shown *)
+  Lemma wide_cells_free : forall r1 c1 y k r2 c2 z,
+    gget nw r1 c1 = Some y -> is_wide o y = true -> c1 <= k < c1 + 2 ->
+    gget nw r2 c2 = Some z -> shown o nw z r2 c2 = true -> ext_covers o z r2 c2 r1 k = true ->
+    r2 = r1 /\ S c2 = k /\ is_wide o z = true /\ hidden o nw r2 c2 = false.
+  Proof.
+    intros r1 c1 y k r2 c2 z Hy Hwd Hk Hz Hsh He.
+    destruct (is_wide_char o y Hwd) as (ch & Ky & Wy).
+    pose proof (good_cells _ _ _ _ GN r1 c1 y Hy) as Gy. unfold cell_good in Gy. rewrite Ky in Gy.
+    pose proof (good_cells _ _ _ _ GN r2 c2 z Hz) as Gz.
+    assert (Hb : r1 < h /\ c1 < w) by (exact (gget_some_bounds nw h w r1 c1 y (good_dims _ _ _ _ GN) Hy)).
+    destruct (ckind z) as [chz|iz|gz] eqn:Kz.
+    - apply (ext_covers_char o z chz) in He; auto. unfold cell_good in Gz. rewrite Kz in Gz.
+      assert (Wz : cw o chz = 2) by lia.
+      assert (Hwz : is_wide o z = true) by (unfold is_wide; rewrite Kz, Wz; reflexivity).
+      unfold shown in Hsh. rewrite Hwz in Hsh. simpl in Hsh. apply negb_true_iff in Hsh.
+      repeat split; auto; lia.
+    - exfalso.
+      destruct (good_disjoint _ _ _ _ GN r1 k r1 c1 r2 c2 y z) as [-> ->]; auto; try lia.
+      + unfold occupies. rewrite Ky. lia.
+      + eapply ext_covers_occupies; eauto.
+      + right. exists iz. auto.
+      + rewrite Hy in Hz. inversion Hz; subst. congruence.
+    - unfold cell_good in Gz. rewrite Kz in Gz. contradiction.
+  Qed.
+
+  Definition step_mark (chg : bool) (nm : mark) (oldc new : cell) (r0 c0 r c : nat) (v : mark) : mark :=
+    if ext_covers o new r0 c0 r c then nm
     else if chg && ext_covers o oldc r0 c0 r c then MDamaged else v.
 
   Lemma inv_step : forall done decs st r0 c0,
-    Inv done decs st -> ~ In (r0, c0) done -> r0 < h -> c0 < w ->
+    Inv done decs st ->
+    (forall r c, In (r, c) done <-> (r < h /\ c < w /\ before (r, c) (r0, c0))) ->
+    r0 < h -> c0 < w ->
     exists decs', Inv (done ++ [(r0, c0)]) decs' (pass1_step o old st (r0, c0)).
   Proof.
-    intros done decs st r0 c0 HI Hnd Hr0 Hc0.
+    intros done decs st r0 c0 HI Hfront Hr0 Hc0.
+    assert (Hnd : ~ In (r0, c0) done).
+    { intros Hin. apply Hfront in Hin. destruct Hin as (_ & _ & Hb). unfold before in Hb. simpl in Hb. lia. }
     destruct (gget_in_bounds old h w r0 c0 (good_dims _ _ _ _ Gold) Hr0 Hc0) as (oldc & Ho).
     destruct (gget_in_bounds front h w r0 c0 Hfd Hr0 Hc0) as (new0 & Hn0).
+    destruct (gget_in_bounds (p1_marks st) h w r0 c0 (i_mdims _ _ _ HI) Hr0 Hc0) as (mk & Hmk).
     assert (Hf0 : gget (p1_front st) r0 c0 = Some new0) by (rewrite (i_front_todo _ _ _ HI); auto).
     set (new := resolve o new0).
     assert (Hnw : gget nw r0 c0 = Some new) by (rewrite gget_nw, Hn0; reflexivity).
     assert (Hgo : cell_good o w c0 oldc) by (eapply (good_cells _ _ _ _ Gold); eauto).
-    unfold pass1_step. rewrite Ho, Hf0. fold new.
-    set (same := cell_eqb oldc new && negb (is_damaged (gget (p1_marks st) r0 c0))).
+    assert (Hgn : cell_good o w c0 new) by (eapply (good_cells _ _ _ _ GN); eauto).
+    unfold pass1_step. rewrite Ho, Hf0. fold new. rewrite Hmk.
+    set (hidq := is_ignored (Some mk) && is_char new).
+    set (nm := if hidq then MDamaged else MIgnored).
+    set (same := cell_eqb oldc new && negb (is_damaged (Some mk))).
     set (chg := negb same).
+    (* the decision "hidden" taken from the mark is the semantic one *)
+    assert (Hhid : is_wide o new = true -> hidq = hidden o nw r0 c0).
+    { intros Hwd. destruct (is_wide_char o new Hwd) as (chn & Kn & Wn).
+      assert (Hic : is_char new = true) by (unfold is_char; rewrite Kn; reflexivity).
+      unfold hidq. rewrite Hic, andb_true_r.
+      destruct (hidden o nw r0 c0) eqn:Eh.
+      - (* hidden: the shown wide character on the left has just marked this cell *)
+        assert (Hlw : left_wide o nw r0 c0 <> None) by (intros H; apply left_wide_hidden in H; congruence).
+        destruct (left_wide o nw r0 c0) as [f|] eqn:El; [|congruence].
+        apply left_wide_some in El. destruct El as (c' & y & -> & Hy & Hwy & Hhy & _).
+        assert (Hdone : In (r0, c') done).
+        { apply Hfront. repeat split; auto; try lia. right. simpl. lia. }
+        rewrite (i_next _ _ _ HI r0 c' y Hdone Hnd Hy Hwy Hhy Hc0) in Hmk. inversion Hmk. reflexivity.
+      - destruct mk; auto. exfalso.
+        destruct (i_ign _ _ _ HI r0 c0 Hmk) as (r1 & c1 & z & _ & Hz & Hsh & He).
+        destruct (wide_cells_free r0 c0 new c0 r1 c1 z Hnw Hwd ltac:(lia) Hz Hsh He) as (-> & <- & Hwz & Hhz).
+        destruct (hidden_S o nw r0 c1 z Hz Hwz Hhz) as [Hh' _]. congruence. }
+    assert (Hshown_nm : shown o nw new r0 c0 = true -> nm = MIgnored \/ forall r c, ext_covers o new r0 c0 r c = false).
+    { intros Hsh. unfold shown in Hsh. destruct (is_wide o new) eqn:Ew.
+      - left. simpl in Hsh. apply negb_true_iff in Hsh. unfold nm. rewrite (Hhid eq_refl), Hsh. reflexivity.
+      - destruct (ckind new) as [ch|i|g] eqn:Kn.
+        + right. intros r c. destruct (ext_covers o new r0 c0 r c) eqn:E; auto.
+          apply (ext_covers_char o new ch) in E; auto. unfold cell_good in Hgn. rewrite Kn in Hgn.
+          unfold is_wide in Ew. rewrite Kn in Ew. apply Nat.eqb_neq in Ew. lia.
+        + left. unfold nm, hidq, is_char. rewrite Kn, andb_false_r. reflexivity.
+        + unfold cell_good in Hgn. rewrite Kn in Hgn. contradiction. }
+    assert (Hnm_ign : nm = MIgnored -> shown o nw new r0 c0 = true).
+    { intros Hn. unfold shown. destruct (is_wide o new) eqn:Ew; auto. simpl.
+      unfold nm in Hn. rewrite (Hhid eq_refl) in Hn. destruct (hidden o nw r0 c0); [discriminate|reflexivity]. }
     (* the resulting marks *)
     set (marks' := fill_extent o (if chg then fill_extent o (p1_marks st) oldc r0 c0 MDamaged else p1_marks st)
-                               new r0 c0 MIgnored).
+                               new r0 c0 nm).
     assert (Hmarks : forall r c, gget marks' r c =
-                                 option_map (step_mark chg oldc new r0 c0 r c) (gget (p1_marks st) r c)).
+                                 option_map (step_mark chg nm oldc new r0 c0 r c) (gget (p1_marks st) r c)).
     { intros r c. unfold marks', step_mark. rewrite fill_extent_gget.
       destruct chg; simpl.
       - rewrite fill_extent_gget. destruct (gget (p1_marks st) r c); simpl; auto.
@@ -145,12 +299,11 @@ Section Pass1.
     assert (Hfront_o : forall r c, (r, c) <> (r0, c0) -> gget front' r c = gget (p1_front st) r c).
     { intros r c Hne. unfold front'. rewrite gget_gset.
       destruct (Nat.eqb_spec r r0); destruct (Nat.eqb_spec c c0); simpl; auto. subst. congruence. }
-    (* when the step does not change the decision set of earlier cells *)
-    assert (Hchg_true : chg = true -> oldc <> new \/ gget (p1_marks st) r0 c0 = Some MDamaged).
+    assert (Hchg_true : chg = true -> oldc <> new \/ mk = MDamaged).
     { unfold chg, same. rewrite negb_true_iff, andb_false_iff, negb_false_iff.
       intros [H|H].
       - left. intros Heq. apply cell_eqb_eq in Heq. congruence.
-      - right. unfold is_damaged in H. destruct (gget (p1_marks st) r0 c0) as [[| |]|]; try discriminate. reflexivity. }
+      - right. unfold is_damaged in H. destruct mk; try discriminate. reflexivity. }
     assert (Hchg_false : chg = false -> oldc = new).
     { unfold chg, same. rewrite negb_false_iff, andb_true_iff. intros [H _]. apply cell_eqb_eq. exact H. }
     set (decs' := if chg then (r0, c0) :: decs else decs).
@@ -167,11 +320,11 @@ Section Pass1.
     set (st' := if chg then mkp1 marks' front' cmds' imgs'
                 else mkp1 marks' front' (p1_cmds st) (p1_imgs st)).
     assert (Hst : (if same
-                   then mkp1 (fill_extent o (p1_marks st) new r0 c0 MIgnored) front' (p1_cmds st) (p1_imgs st)
-                   else mkp1 (fill_extent o (fill_extent o (p1_marks st) oldc r0 c0 MDamaged) new r0 c0 MIgnored)
+                   then mkp1 (fill_extent o (p1_marks st) new r0 c0 nm) front' (p1_cmds st) (p1_imgs st)
+                   else mkp1 (fill_extent o (fill_extent o (p1_marks st) oldc r0 c0 MDamaged) new r0 c0 nm)
                              front' cmds' imgs') = st').
     { unfold st', marks', chg. destruct same; reflexivity. }
-    fold front'. fold cmds'. fold imgs'. rewrite Hst.
+    fold front'. fold cmds'. fold imgs'. fold hidq. fold nm. fold same. rewrite Hst.
     assert (Hm' : p1_marks st' = marks') by (unfold st'; destruct chg; reflexivity).
     assert (Hf' : p1_front st' = front') by (unfold st'; destruct chg; reflexivity).
     exists decs'.
@@ -193,66 +346,115 @@ Section Pass1.
     - intros r c Hin Hnd'. apply Hin_app in Hin. destruct Hin as [Hin|Heq].
       + apply (i_same _ _ _ HI); auto.
       + inversion Heq; subst. rewrite Ho, Hnw. f_equal. apply Hchg_false.
-        destruct (Bool.bool_dec chg true) as [E|E]; [|apply not_true_is_false in E; auto]. exfalso. apply Hnd'. unfold decs'. rewrite E. left. reflexivity.
+        destruct (Bool.bool_dec chg true) as [E|E]; [|apply not_true_is_false in E; auto].
+        exfalso. apply Hnd'. unfold decs'. rewrite E. left. reflexivity.
     - (* i_dec *)
       intros r c Hin. rewrite Hm', Hmarks.
-      assert (Hcov : ext_covers o new r0 c0 r c = true ->
-                     exists r1 c1 y, gget nw r1 c1 = Some y /\ ext_covers o y r1 c1 r c = true)
-        by (intros; eauto).
+      assert (Hkeep : forall v, v = MDamaged ->
+                step_mark chg nm oldc new r0 c0 r c v = MDamaged
+                \/ exists r1 c1 y, gget nw r1 c1 = Some y /\ shown o nw y r1 c1 = true
+                                   /\ ext_covers o y r1 c1 r c = true).
+      { intros v ->. unfold step_mark.
+        destruct (ext_covers o new r0 c0 r c) eqn:E1.
+        - destruct nm eqn:En; auto.
+          + exfalso. unfold nm in En. destruct hidq; discriminate.
+          + right. exists r0, c0, new. auto.
+        - destruct (chg && ext_covers o oldc r0 c0 r c); auto. }
       apply Hdecs_inv in Hin. destruct Hin as [Hin|[Hc Heq]].
       + destruct (i_dec _ _ _ HI r c Hin) as [H|[H|H]]; auto.
-        rewrite H. simpl. unfold step_mark.
-        destruct (ext_covers o new r0 c0 r c) eqn:E1; auto.
-        destruct (chg && ext_covers o oldc r0 c0 r c); auto.
+        rewrite H. simpl. destruct (Hkeep MDamaged eq_refl) as [Hk|Hk]; [rewrite Hk|]; auto.
       + inversion Heq; subst r c. destruct (Hchg_true Hc) as [H|H].
         * left. rewrite Ho, Hnw. congruence.
-        * rewrite H. simpl. unfold step_mark.
-          destruct (ext_covers o new r0 c0 r0 c0) eqn:E1; auto.
-          destruct (chg && ext_covers o oldc r0 c0 r0 c0); auto.
+        * subst mk. rewrite Hmk. simpl. destruct (Hkeep MDamaged eq_refl) as [Hk|Hk]; [rewrite Hk|]; auto.
     - (* i_ign *)
       intros r c. rewrite Hm', Hmarks.
       destruct (gget (p1_marks st) r c) as [v|] eqn:Ev; [|discriminate]. simpl. unfold step_mark.
-      destruct (ext_covers o new r0 c0 r c) eqn:E1; [eauto|].
-      destruct (chg && ext_covers o oldc r0 c0 r c); [discriminate|].
-      intros H. inversion H; subst. apply (i_ign _ _ _ HI); auto.
+      destruct (ext_covers o new r0 c0 r c) eqn:E1.
+      + intros H. inversion H as [Hn]. exists r0, c0, new. split; [apply Hin_app; auto|]. auto.
+      + destruct (chg && ext_covers o oldc r0 c0 r c); [discriminate|].
+        intros H. inversion H; subst.
+        destruct (i_ign _ _ _ HI r c Ev) as (r1 & c1 & y & Hd & Hy & Hsh & He).
+        exists r1, c1, y. split; [apply Hin_app; auto|]. auto.
     - (* i_new *)
-      intros r1 c1 y r c Hin Hy He Hr Hc. rewrite Hm', Hmarks.
+      intros r1 c1 y r c Hin Hy Hsh He Hr Hc. rewrite Hm', Hmarks.
       destruct (gget_in_bounds (p1_marks st) h w r c (i_mdims _ _ _ HI) Hr Hc) as (v & Hv).
       rewrite Hv. simpl. unfold step_mark.
       apply Hin_app in Hin. destruct Hin as [Hin|Heq].
-      2:{ inversion Heq; subst r1 c1. rewrite Hnw in Hy. inversion Hy; subst y. rewrite He. auto. }
-      destruct (ext_covers o new r0 c0 r c) eqn:E1; auto.
-      destruct (i_new _ _ _ HI r1 c1 y r c Hin Hy He Hr Hc) as [H|[H1 H2]].
+      2:{ inversion Heq; subst r1 c1. rewrite Hnw in Hy. inversion Hy; subst y. rewrite He.
+          destruct (Hshown_nm Hsh) as [->|Hno]; auto. rewrite Hno in He. discriminate. }
+      destruct (ext_covers o new r0 c0 r c) eqn:E1.
+      { (* the new cell reaches the same cell as an earlier shown object: impossible unless it is Ignored *)
+        destruct nm eqn:En; auto.
+        - exfalso. unfold nm in En. destruct hidq; discriminate.
+        - exfalso.
+          destruct (ext_unique nw GN r1 c1 y r0 c0 new r c Hy Hnw Hr Hc He E1) as [-> ->]. contradiction. }
+      destruct (i_new _ _ _ HI r1 c1 y r c Hin Hy Hsh He Hr Hc) as [H|[H1 H2]].
       + rewrite Hv in H. inversion H; subst v.
         destruct (chg && ext_covers o oldc r0 c0 r c) eqn:E2; auto.
         right. split; auto. apply andb_true_iff in E2. destruct E2 as [Ec Eo].
-        (* an old object that changed overwrote the mark: the new object is not an unchanged old one *)
         destruct (pos_mem decs r1 c1) eqn:Em; [apply pos_mem_in in Em; auto|].
-        apply pos_mem_false in Em. rename Em into Hnd1.
-        exfalso.
-        pose proof (i_same _ _ _ HI r1 c1 Hin Hnd1) as Hsame. rewrite Hy in Hsame.
-        assert (Hgy : cell_good o w c1 y) by (eapply (good_cells _ _ _ _ Gold); eauto).
-        destruct (good_disjoint _ _ _ _ Gold r c r1 c1 r0 c0 y oldc Hr Hc Hsame Ho) as [-> ->].
-        * eapply ext_covers_occupies; eauto.
-        * eapply ext_covers_occupies; eauto.
-        * contradiction.
+        apply pos_mem_false in Em. exfalso.
+        pose proof (i_same _ _ _ HI r1 c1 Hin Em) as Hsame. rewrite Hy in Hsame.
+        destruct (ext_unique old Gold r1 c1 y r0 c0 oldc r c Hsame Ho Hr Hc He Eo) as [-> ->]. contradiction.
       + rewrite Hv in H1. inversion H1; subst v.
         destruct (chg && ext_covers o oldc r0 c0 r c); auto.
+    - (* i_hid *)
+      intros r1 c1 y Hin Hy Hwy Hhy Hfit. rewrite Hm', Hmarks.
+      assert (Hb1 : r1 < h /\ c1 < w) by (exact (gget_some_bounds nw h w r1 c1 y (good_dims _ _ _ _ GN) Hy)).
+      destruct (gget_in_bounds (p1_marks st) h w r1 (S c1) (i_mdims _ _ _ HI) (proj1 Hb1) Hfit) as (v & Hv).
+      rewrite Hv. simpl. unfold step_mark.
+      apply Hin_app in Hin. destruct Hin as [Hin|Heq].
+      + pose proof (i_hid _ _ _ HI r1 c1 y Hin Hy Hwy Hhy Hfit) as H. rewrite Hv in H. inversion H; subst v.
+        destruct (ext_covers o new r0 c0 r1 (S c1)) eqn:E1.
+        * destruct nm eqn:En; auto.
+          -- exfalso. unfold nm in En. destruct hidq; discriminate.
+          -- exfalso. pose proof (Hnm_ign eq_refl) as Hshn.
+             destruct (wide_cells_free r1 c1 y (S c1) r0 c0 new Hy Hwy ltac:(lia) Hnw Hshn E1) as (-> & Hc' & _ & _).
+             inversion Hc'; subst. contradiction.
+        * destruct (chg && ext_covers o oldc r0 c0 r1 (S c1)); auto.
+      + inversion Heq; subst r1 c1. rewrite Hnw in Hy. inversion Hy; subst y.
+        destruct (is_wide_char o new Hwy) as (chn & Kn & Wn).
+        assert (E1 : ext_covers o new r0 c0 r0 (S c0) = true) by (apply (ext_covers_char o new chn); auto; lia).
+        rewrite E1. unfold nm. rewrite (Hhid Hwy), Hhy. reflexivity.
+    - (* i_next *)
+      intros r c' y Hin Hnin Hy Hwy Hhy Hfit. rewrite Hm', Hmarks.
+      assert (Hb1 : r < h /\ c' < w) by (exact (gget_some_bounds nw h w r c' y (good_dims _ _ _ _ GN) Hy)).
+      assert (Hq : (r, c') = (r0, c0)).
+      { apply Hin_app in Hin. destruct Hin as [Hin|Heq]; auto. exfalso.
+        apply Hfront in Hin. destruct Hin as (_ & _ & Hbef). unfold before in Hbef. simpl in Hbef.
+        apply Hnin. apply Hin_app.
+        destruct (Nat.eq_dec r r0) as [->|Hne].
+        - destruct (Nat.eq_dec (S c') c0) as [<-|Hne2]; auto.
+          left. apply Hfront. repeat split; auto; try lia. right. simpl. lia.
+        - left. apply Hfront. repeat split; auto; try lia. left. simpl. lia. }
+      inversion Hq; subst r c'. rewrite Hnw in Hy. inversion Hy; subst y.
+      destruct (gget_in_bounds (p1_marks st) h w r0 (S c0) (i_mdims _ _ _ HI) Hr0 Hfit) as (v & Hv).
+      rewrite Hv. simpl. unfold step_mark.
+      destruct (is_wide_char o new Hwy) as (chn & Kn & Wn).
+      assert (E1 : ext_covers o new r0 c0 r0 (S c0) = true) by (apply (ext_covers_char o new chn); auto; lia).
+      rewrite E1. unfold nm. rewrite (Hhid Hwy), Hhy. reflexivity.
     - (* i_old *)
       intros r1 c1 y r c Hin Hy He Hr Hc Hnone. rewrite Hm', Hmarks.
       destruct (gget_in_bounds (p1_marks st) h w r c (i_mdims _ _ _ HI) Hr Hc) as (v & Hv).
-      rewrite Hv. simpl. unfold step_mark. rewrite (Hnone r0 c0 new Hnw).
+      rewrite Hv. simpl. unfold step_mark.
+      assert (Hnew : ext_covers o new r0 c0 r c = true -> nm = MDamaged).
+      { intros E. destruct nm eqn:En; auto.
+        - exfalso. unfold nm in En. destruct hidq; discriminate.
+        - exfalso. rewrite (Hnone r0 c0 new Hnw (Hnm_ign eq_refl)) in E. discriminate. }
       apply Hdecs_inv in Hin. destruct Hin as [Hin|[Hc' Heq]].
       + pose proof (i_old _ _ _ HI r1 c1 y r c Hin Hy He Hr Hc Hnone) as H.
         rewrite Hv in H. inversion H; subst v.
+        destruct (ext_covers o new r0 c0 r c) eqn:E1; [rewrite (Hnew eq_refl); reflexivity|].
         destruct (chg && ext_covers o oldc r0 c0 r c); auto.
       + inversion Heq; subst r1 c1. rewrite Ho in Hy. inversion Hy; subst y.
+        destruct (ext_covers o new r0 c0 r c) eqn:E1; [rewrite (Hnew eq_refl); reflexivity|].
         rewrite Hc', He. reflexivity.
     - (* i_forced *)
       intros Hd r c Hr Hc. rewrite Hm', Hmarks.
       destruct (gget_in_bounds (p1_marks st) h w r c (i_mdims _ _ _ HI) Hr Hc) as (v & Hv).
       rewrite Hv. simpl. unfold step_mark.
-      destruct (ext_covers o new r0 c0 r c); auto.
+      destruct (ext_covers o new r0 c0 r c).
+      { unfold nm. destruct hidq; auto. }
       destruct (chg && ext_covers o oldc r0 c0 r c); auto.
       destruct (i_forced _ _ _ HI Hd r c Hr Hc) as [H|H]; rewrite Hv in H; inversion H; auto.
     - (* i_cmds *)
@@ -300,20 +502,19 @@ Section Pass1.
   Qed.
 
   Lemma inv_fold : forall todo done decs st,
-    Inv done decs st -> NoDup (done ++ todo) ->
-    (forall r c, In (r, c) todo -> r < h /\ c < w) ->
+    Inv done decs st -> all_pos h w = done ++ todo ->
     exists decs', Inv (done ++ todo) decs' (fold_left (pass1_step o old) todo st).
   Proof.
-    induction todo as [|[r0 c0] todo IH]; intros done decs st HI Hnd Hb.
+    induction todo as [|[r0 c0] todo IH]; intros done decs st HI Heq.
     - rewrite app_nil_r. simpl. eauto.
     - simpl.
-      assert (Hnin : ~ In (r0, c0) done).
-      { apply NoDup_remove_2 in Hnd. intros Hin. apply Hnd. apply in_or_app. auto. }
-      destruct (Hb r0 c0 (or_introl eq_refl)) as [Hr Hc].
-      destruct (inv_step done decs st r0 c0 HI Hnin Hr Hc) as (decs1 & HI1).
+      assert (Hb : r0 < h /\ c0 < w).
+      { apply in_all_pos. rewrite Heq. apply in_or_app. right. left. reflexivity. }
+      destruct (inv_step done decs st r0 c0 HI (all_pos_frontier h w done (r0, c0) todo Heq) (proj1 Hb) (proj2 Hb))
+        as (decs1 & HI1).
       replace (done ++ (r0, c0) :: todo) with ((done ++ [(r0, c0)]) ++ todo) in *
         by (rewrite <- app_assoc; reflexivity).
-      apply (IH _ decs1); auto. intros r c Hin. apply Hb. right. auto.
+      apply (IH _ decs1); auto.
   Qed.
 
   Theorem pass1_spec :
@@ -322,11 +523,11 @@ Section Pass1.
     /\ exists dec, P1Spec o h w u old nw (p1_marks st) dec (rev (p1_cmds st)) (rev (p1_imgs st)).
   Proof.
     cbv zeta. unfold pass1. cbn [marks Frame.front back rh rw].
-    destruct (inv_fold (all_pos h w) [] [] _ inv_init) as (decs & HI).
-    { simpl. apply nodup_all_pos. }
-    { intros r c Hin. apply in_all_pos. auto. }
+    destruct (inv_fold (all_pos h w) [] [] _ inv_init eq_refl) as (decs & HI).
     simpl in HI. set (st := fold_left _ _ _) in *.
     assert (Hdone : forall r c, r < h -> c < w -> In (r, c) (all_pos h w)) by (intros; apply in_all_pos; auto).
+    assert (Hbn : forall r c y, gget nw r c = Some y -> In (r, c) (all_pos h w)).
+    { intros r c y Hy. destruct (gget_some_bounds nw h w r c y (good_dims _ _ _ _ GN) Hy). auto. }
     split.
     - apply (grid_ext _ _ h w). apply HI. unfold nw. apply gdims_gmap. exact Hfd.
       intros r c Hr Hc. apply (i_front_done _ _ _ HI). auto.
@@ -334,11 +535,11 @@ Section Pass1.
       + apply HI.
       + intros r c Hr Hc Hd. apply pos_mem_false in Hd. apply (i_same _ _ _ HI); auto.
       + intros r c Hr Hc Hd. apply pos_mem_in in Hd. apply (i_dec _ _ _ HI); auto.
-      + apply (i_ign _ _ _ HI).
-      + intros r1 c1 y r c Hy He Hr Hc.
-        assert (Hb : r1 < h /\ c1 < w) by (apply (gget_some_bounds nw h w r1 c1 y (good_dims _ _ _ _ GN) Hy)).
-        destruct (i_new _ _ _ HI r1 c1 y r c (Hdone _ _ (proj1 Hb) (proj2 Hb)) Hy He Hr Hc) as [H|[H1 H2]]; auto.
+      + intros r c Hm. destruct (i_ign _ _ _ HI r c Hm) as (r1 & c1 & y & _ & H). eauto.
+      + intros r1 c1 y r c Hy Hsh He Hr Hc.
+        destruct (i_new _ _ _ HI r1 c1 y r c (Hbn _ _ _ Hy) Hy Hsh He Hr Hc) as [H|[H1 H2]]; auto.
         right. split; auto. apply pos_mem_in. auto.
+      + intros r1 c1 y Hy Hwy Hhy Hfit. apply (i_hid _ _ _ HI r1 c1 y); auto. eapply Hbn; eauto.
       + intros r1 c1 y r c Hy Hd He Hr Hc Hnone. apply pos_mem_in in Hd.
         apply (i_old _ _ _ HI r1 c1 y r c); auto.
       + apply (i_forced _ _ _ HI).
